@@ -202,4 +202,15 @@ theorem rendered_plan_final_table_new (f : Frame) {n : Nat} (hs : f.Sorted) (hr 
   exact plan_final_table_new f hs hr hne table r hb ex hmode
 
 
+/-- append, no TypeMap: executing the RENDERED SQL TEXT of the plan (lexed and parsed by the independent lexer)
+keeps the existing rows and adds the frame's rows after them, in frame order -/
+theorem rendered_plan_final_table_append (f : Frame) {n : Nat} (hs : f.Sorted) (hr : f.RectN n) (hne : f ≠ []) (table : Str)
+    (r : Resolved) (hb : 0 < r.batch) (htm : r.typeMap = []) (hmode : r.mode = .append) (old : Table)
+    (hold : old.cols.map (·.1) = f.keys) :
+    ∃ db', execTexts r.dialect [(table, old)] (textsOf r.dialect (bodyAfterQuery f table r true).1) = some db' ∧
+      (db'.get? table).map (·.rows) =
+        some (old.rows ++ (List.range n).map (fun i => f.map (fun kc => (kc.1, bound (kc.2.data.getD i .nil))))) := by
+  rw [execTexts_eq_execCalls r.dialect _ (body_calls_parse f hne table r hb htm true) _]
+  exact plan_final_table_append f hs hr hne table r hb hmode old hold
+
 end Goframe.C11
